@@ -161,10 +161,10 @@ theorem forwarding_after_install {old : Bool} {s : St} (hr : Reachable old s) (h
     simp at hp
 
 /-- … hence every measurement (span) started afterwards loads a non-nil delegate and reaches the SDK recorder. -/
-theorem measurement_after_install_reaches_sdk {old : Bool} {s s1 : St} {t i v : Nat} (hr : Reachable old s)
-    (hd : s.onceDone = true) (h1 : step old s t (.addLoad i v) = some s1) :
-    s1.frame t = .addLoaded i v true ∧
-    ∀ s2 s3, s2.frame t = .addLoaded i v true → step old s2 t .addFwd = some s3 →
+theorem measurement_after_install_reaches_sdk {old : Bool} {s s1 : St} {t i v c : Nat} (hr : Reachable old s)
+    (hd : s.onceDone = true) (h1 : step old s t (.addLoad i v c) = some s1) :
+    s1.frame t = .addLoaded i v c true ∧
+    ∀ s2 s3, s2.frame t = .addLoaded i v c true → step old s2 t .addFwd = some s3 →
       s3.recorded = (i, v) :: s2.recorded := by
   simp only [step] at h1
   split at h1
@@ -179,7 +179,7 @@ theorem measurement_after_install_reaches_sdk {old : Bool} {s s1 : St} {t i v : 
   · simp at h1
 
 /-- a loaded delegate is always forwarded to: the window between `delegate.Load()` and the call loses nothing -/
-theorem loaded_delegate_is_used {old : Bool} {s : St} {t i v : Nat} (hf : s.frame t = .addLoaded i v true) :
+theorem loaded_delegate_is_used {old : Bool} {s : St} {t i v c : Nat} (hf : s.frame t = .addLoaded i v c true) :
     ∃ s', step old s t .addFwd = some s' ∧ s'.recorded = (i, v) :: s.recorded := by
   refine ⟨{ s with frame := upd s.frame t .idle, recorded := (i, v) :: s.recorded }, ?_, rfl⟩
   simp [step, hf]
@@ -188,9 +188,9 @@ theorem loaded_delegate_is_used {old : Bool} {s : St} {t i v : Nat} (hf : s.fram
 one of the 14 constructors) is never read by the load / forward labels — replacing the kind table by any other
 one commutes with both labels … -/
 theorem add_labels_ignore_kind {old : Bool} {s : St} {t : Nat} (f : Nat → Nat) (a : Act)
-    (ha : a = .addFwd ∨ ∃ i v, a = .addLoad i v) :
+    (ha : a = .addFwd ∨ ∃ i v c, a = .addLoad i v c) :
     step old { s with iKind := f } t a = (step old s t a).map (fun x => { x with iKind := f }) := by
-  rcases ha with rfl | ⟨i, v, rfl⟩
+  rcases ha with rfl | ⟨i, v, c, rfl⟩
   · simp only [step]
     cases s.frame t <;> simp
     split <;> simp
@@ -201,6 +201,31 @@ theorem add_labels_ignore_kind {old : Bool} {s : St} {t : Nat} (f : Nat → Nat)
 theorem forwarding_kind_independent {old : Bool} {s : St} (hr : Reachable old s) (hd : s.onceDone = true)
     {i : Nat} (hi : i < s.nI) (k : Nat) (_hk : s.iKind i = k) : s.iDel i = true :=
   forwarding_after_install hr hd hi
+
+/-- **Span forwarding is independent of the context**: whatever the caller's context carries (nothing, a
+placeholder span handed out before the installation — by this tracer or another one —, a real SDK span), `Start`
+takes the same decision and leaves the same state: the context tag `c` is not read by any label. (The SDK decides
+parentage from the span context in `ctx`; the global layer must not.) -/
+theorem span_forwarding_independent_of_context {old : Bool} {s s1 s1' s2 s2' : St} {t i v c c' : Nat}
+    (h1 : step old s t (.addLoad i v c) = some s1) (h1' : step old s t (.addLoad i v c') = some s1')
+    (h2 : step old s1 t .addFwd = some s2) (h2' : step old s1' t .addFwd = some s2') : s2 = s2' := by
+  simp only [step] at h1 h1'
+  split at h1
+  · next hc =>
+    simp only [hc, and_self, if_true, Option.some.injEq] at h1 h1'
+    subst h1; subst h1'
+    simp only [step, upd_same] at h2 h2'
+    cases hd : s.iDel i <;> simp [hd] at h2 h2' <;> rw [← h2, ← h2'] <;> simp <;>
+      (funext x; simp only [upd]; split <;> rfl)
+  · simp at h1
+
+/-- … and `Start` is enabled for every context alike -/
+theorem span_start_enabled_for_every_context {old : Bool} {s s1 : St} {t i v c : Nat} (c' : Nat)
+    (h1 : step old s t (.addLoad i v c) = some s1) : (step old s t (.addLoad i v c')).isSome = true := by
+  simp only [step] at h1 ⊢
+  split at h1
+  · next hc => simp [hc]
+  · simp at h1
 
 /-! ### self-set (`SetMeterProvider(GetMeterProvider())` / `SetTracerProvider(GetTracerProvider())` while the
 placeholder is still the global value — a save/restore helper): documented no-op, must not use up the once -/
@@ -294,12 +319,12 @@ theorem unregister_handle_taken_once {s : St} (hr : Reachable false s) {t t' r :
 /-- instrument created before, measurement dropped before, installation, measurement forwarded after;
 callback registered before is registered with the SDK once -/
 def demoLabels : List (Nat × Act) :=
-  [(0, .meterNew), (0, .mk 0 1), (0, .reg 0), (1, .addLoad 0 5), (1, .addFwd),
+  [(0, .meterNew), (0, .mk 0 1), (0, .reg 0), (1, .addLoad 0 5 0), (1, .addFwd),
    (4, .selfSet),                    -- save/restore helper before any SDK exists
    (2, .instBegin), (2, .instLockProv), (2, .instLockMeter 0), (2, .instSetDel),
    (3, .mk 0 3),                     -- blocked in reality; here: must not be enabled
    (2, .instInst 0), (2, .instRegLock), (2, .instRegBody), (2, .instMeterDone), (2, .instProvUnlock),
-   (2, .instOnceDone), (2, .instStore), (1, .addLoad 0 7), (1, .addFwd)]
+   (2, .instOnceDone), (2, .instStore), (1, .addLoad 0 7 3), (1, .addFwd)]
 
 example : (runLabels false St.init demoLabels).isNone = true := by decide   -- `mk 0` under the installer's lock is disabled
 example :
